@@ -71,6 +71,7 @@ pub struct Fsx {
     pub record_events: bool,
     pub fsyncs: u64,
     pub killed: bool,
+    pub faults_off: bool,
 }
 struct G(UnsafeCell<Option<Fsx>>);
 unsafe impl Sync for G {}
@@ -91,6 +92,7 @@ pub fn configure(cfg: FsCfg) {
             record_events: true,
             fsyncs: 0,
             killed: false,
+            faults_off: false,
         })
     }
 }
@@ -286,7 +288,16 @@ unsafe fn stamp_path(path: &[u8]) {
 }
 
 fn coin(name: &str, permille: u32) -> bool {
-    permille > 0 && rt::fault_coin(name, permille)
+    permille > 0 && !state().map_or(false, |s| s.faults_off) && rt::fault_coin(name, permille)
+}
+/// Harness-side file operations inside the simulation (fixtures, foreign actors) are stamped and scheduled but never faulted.
+pub fn without_faults<T>(f: impl FnOnce() -> T) -> T {
+    let prev = state().map(|s| std::mem::replace(&mut s.faults_off, true));
+    let r = f();
+    if let (Some(s), Some(p)) = (state(), prev) {
+        s.faults_off = p;
+    }
+    r
 }
 
 // ---- open family ------------------------------------------------------------------------------------------------
